@@ -100,6 +100,11 @@ class C01(Prop):
         nest = ''.join('%s\n' % ('..' + '.' * i) for i in range(depth)) + 'deep\n' + ''.join(
             '%s\n' % ('..' + '.' * i) for i in reversed(range(depth)))
         out.append({'steps': [{'src': nest, 'reset': True, 'callback': True}], 'stress': True})
+        # F41: containers that are never closed, each around the rest of the source (the interpreter's stack, not the
+        # source, used to be the limit); also through attached blocks of list items
+        for unit in ['..a\n', '""q\n', '..a\n""b\n', '- x\n..\n', '- x\n\n  > - y\n..\n', '.+container\npara\n..k\n']:
+            for n, m in [(40, 1), (600, 1), (big, 0)]:
+                out.append({'steps': [{'src': unit * n, 'safeMode': m, 'reset': True, 'callback': True}], 'stress': True})
         q = ['*', '_', '~~', '**', '__']
         s = 'x'
         for i in range(depth):
@@ -589,6 +594,20 @@ class C06(Prop):
                 else:
                     yield {'steps': [{'src': 'intro\n\n.%s\n%s%s\n\nafter' % (opt, between, block), 'safeMode': mode, 'reset': True,
                                       'callback': True}]}
+            elif k < 0.2:
+                # tag-free redefinitions of the built-in quotes (one side, both or neither left blank; spans on or off), then the
+                # quotes in use, nested and overlapping: at safe mode 0, without a '<' anywhere
+                qs = rng.sample(['*', '**', '_', '__', '`', '``', '~~', '='], rng.randint(1, 3))
+                defs = ["%s = '%s%s%s'" % (q, rng.choice(['', '', '[', '(( ']), rng.choice(['|', '||']), rng.choice(['', '', ']', ' ))'])) for q in qs]
+                uses = ['a %sb%s c' % (q, q) for q in qs] + ['x *y _z_ w* ~~v~~ `u`', '**a *b** c*', '- %sitem%s\n- __two__' % (qs[0], qs[0]),
+                                                             '""\n%sq%s *r*\n""' % (qs[-1], qs[-1])]
+                two = rng.random() < 0.3
+                doc = '\n\n'.join(rng.sample(uses, rng.randint(2, len(uses))))
+                if two:
+                    yield {'steps': [{'src': '\n'.join(defs), 'safeMode': 0, 'reset': True, 'callback': True},
+                                     {'src': doc, 'safeMode': rng.choice([0, 0, 1, 3]), 'callback': True}]}
+                else:
+                    yield {'steps': [{'src': '\n'.join(defs) + '\n\n' + doc, 'safeMode': 0, 'reset': True, 'callback': True}]}
             elif k < 0.35:
                 yield {'steps': [{'src': strip_lt(src), 'safeMode': 0, 'reset': True, 'callback': True}]}
             elif k < 0.5:
@@ -765,6 +784,8 @@ class C20(Prop):
     DOCS = ['', "para", ".safeMode = '3'", ".safeMode = 'x'\n.safeMode = '0'", ".htmlReplacement = 'DOC'",
             ".safeMode = '1'\n.htmlReplacement = 'late'", ".reset = 'true'", ".safeMode = '16'", "\\.safeMode = '2'",
             ".htmlReplacement = 'A'\n.safeMode = '4'\n.safeMode = '0'", ".reset = 'junk'", ".bogus = '1'",
+            # F43: an in-document reset restores the defaults and leaves the callback of the call in progress where it is
+            ".reset = 'true'\n.safeMode = '16'", ".safeMode = 'x'\n.reset = 'true'\n\n.safeMode = '-1'",
             # option elements that come out of a macro the session already has: they are option elements like any other
             "{note} = '$1'", "{note} = '$1'\n{note|.safeMode='2'}", "{note|.safeMode='0'}", "{note|.htmlReplacement='SM'}",
             "{note|.safeMode='5'}\n{note|.safeMode='0'}", "{note|.reset='true'}", "x {note|.safeMode='0'}"]
@@ -785,8 +806,9 @@ class C20(Prop):
         while True:
             steps = []
             for _ in range(rng.randint(1, 4)):
+                # F38: the callback is an option like the others - not given, it keeps its session value (reset clears it)
                 steps.append({'src': rng.choice(self.DOCS), 'safeMode': rng.choice(self.SAFE), 'htmlReplacement': rng.choice(self.REPL),
-                              'reset': rng.choice(self.RESET), 'callback': True})
+                              'reset': rng.choice(self.RESET), 'callback': rng.random() < 0.7})
             yield {'steps': steps}
 
     thorough_cases = 60000
@@ -799,6 +821,7 @@ class C20(Prop):
             model.reset_process()
         mode, repl = 0, DEFAULT_REPLACEMENT     # reference state machine (after the implicit first-call initialisation)
         carrier = False                         # the session has the macro {note} = '$1'
+        installed = False                       # a callback is installed
         interesting = False
         for i, st in enumerate(case['steps']):
             kw = step_kwargs(st)
@@ -812,9 +835,13 @@ class C20(Prop):
             if a[0] != 'ok':
                 res.violation('render raised', case, short(a))
                 return
-            msgs = a[2]
+            msgs = [m[len('STALE-CALLBACK: '):] if m.startswith('STALE-CALLBACK: ') else m for m in a[2]]
             expect_msgs = []
             r = st.get('reset')
+            if st.get('callback'):
+                installed = True
+            elif r == True or r == 'true':                # noqa: E712
+                installed = False                         # reset to the defaults, and the call gives none
             if r is None or r == False or r == 'false':   # noqa: E712
                 pass
             elif r == True or r == 'true':                # noqa: E712
@@ -870,6 +897,8 @@ class C20(Prop):
                 res.violation('option state after step %d is (%r, %r), the property requires (%r, %r)' % (i, got_mode, got_repl, mode, repl),
                               case, None)
                 return
+            if not installed:
+                expect_msgs = []
             got = [m for m in msgs if m.startswith('illegal safeMode')]
             if len(got) != len(expect_msgs) or any(not g.startswith(e) for g, e in zip(got, expect_msgs)):
                 res.violation('option diagnostics at step %d are %r, expected kinds %r' % (i, got, expect_msgs), case, None)
